@@ -623,7 +623,7 @@ def _tapinfo_blocks(out):
         if m:
             blocks.append((int(m.group(1)), m.group(2), []))
         elif line.startswith('  ') and blocks:
-            if not line[2:].startswith(DECOR) and not re.match(r'^  [0-9A-F]{4}  ', line):
+            if not line[2:].startswith(DECOR):
                 blocks[-1][2].append(line[2:])
     return blocks
 
